@@ -44,10 +44,11 @@ def main():
     tables = gen_tables.write_all()
 
     # 2. build the development
-    proof_ok, log = common.coq_build()
+    all_ok, log = common.coq_build()
+    proof_ok = common.vo_fresh(mod.PROPS_FILE)      # this property's theorems and their closure
     build_note = ""
     if not proof_ok:
-        build_note = log[-4000:]
+        build_note = log[-6000:]
     # the executable model must exist for the correspondence
     needed = ["theories/CaseLib.vo"] + [m[:-2] + ".vo" for m in getattr(mod, "MODEL_FILES", [])]
     for rel in needed:
